@@ -57,7 +57,34 @@ type world struct {
 	stubFail bool
 	// history for oracles
 	everActive map[string]bool
-	obs        []string // per-op observation (for differential twins)
+	obs        []string   // per-op observation (for differential twins)
+	conc       *concState // non-nil during the concurrent phase of C15
+	fixedSync  *syncArgs  // C15: arguments of the concurrently issued Synchronize
+	conc0      *concState // the finished phase
+	preSigs    map[string]bool
+}
+
+type syncArgs struct {
+	pods []*nri.PodSandbox
+	ctrs []*nri.Container
+}
+
+// syncLists is what the runtime would send in a Synchronize right now.
+func (w *world) syncLists() *syncArgs {
+	a := &syncArgs{}
+	for _, id := range sortedKeys(w.rt.pods) {
+		pod := w.rt.pods[id]
+		if pod.state == "running" || pod.state == "stopped" {
+			a.pods = append(a.pods, pod.spec.nri())
+		}
+	}
+	for _, c := range w.rt.live() {
+		if c.state == "creating" {
+			continue
+		}
+		a.ctrs = append(a.ctrs, w.rt.nriCtr(c))
+	}
+	return a
 }
 
 func (w *world) backend() policyapi.Backend {
@@ -136,6 +163,13 @@ func (w *world) boot(cfg *CfgSpec) error {
 			}
 			return nil, fmt.Errorf("injected UpdateContainers failure")
 		}
+		if w.conc != nil {
+			// concurrent phase (C15): kept with the task that sent it and
+			// applied with its reply, in serialization order
+			task := verifrt.CurrentTask()
+			w.conc.pushedBy[task] = append(w.conc.pushedBy[task], u)
+			return nil, nil
+		}
 		w.pushed = append(w.pushed, u)
 		return nil, nil
 	}
@@ -153,6 +187,15 @@ func agentConfigInterface(policy string) agent.ConfigInterface {
 // call runs one handler under recover. A panic or a process exit through the
 // logger's Fatal kills the incarnation.
 func (w *world) call(name string, f func() error) (err error, crashed bool) {
+	if w.conc != nil {
+		task := verifrt.CurrentTask()
+		w.conc.inCall[task]++
+		defer func() {
+			if w.conc != nil {
+				w.conc.inCall[task]--
+			}
+		}()
+	}
 	defer func() {
 		if r := recover(); r != nil {
 			if verifrt.IsCrash(r) {
@@ -165,7 +208,11 @@ func (w *world) call(name string, f func() error) (err error, crashed bool) {
 				what = fmt.Sprintf("process exit(%d) through the logger's Fatal", ep.code)
 			}
 			site := panicSite(debug.Stack())
-			w.res.Violate("C14", "handler-returns", "C14 "+name+" "+what0(what)+" at "+site, w.step,
+			prop := "C14"
+			if w.prop == "C15" {
+				prop = "C15" // a handler that panics under concurrent delivery
+			}
+			w.res.Violate(prop, "handler-returns", prop+" "+name+" "+what0(what)+" at "+site, w.step,
 				"%s: %s\n%s", name, what, trimStack(debug.Stack()))
 		}
 	}()
@@ -291,9 +338,11 @@ func (w *world) doOp(op *Op) *reply {
 		return rep
 	}
 	p := resmgr.VerifPlugin(w.rm)
-	w.pushed = nil
-	sim.LogReset()
-	w.stubFail = op.Fault == "stub.update-error"
+	if w.conc == nil {
+		w.pushed = nil
+		sim.LogReset()
+		w.stubFail = op.Fault == "stub.update-error"
+	}
 	switch op.Kind {
 	case "run-pod":
 		pod := &rPod{spec: op.Pod, state: "running"}
@@ -567,6 +616,9 @@ func (w *world) doOp(op *Op) *reply {
 		rep.skipped = true
 		return rep
 	}
+	if w.conc != nil {
+		return rep // applied after the phase, in serialization order
+	}
 	rep.pushed = w.pushed
 	w.pushed = nil
 	w.stubFail = false
@@ -595,6 +647,15 @@ func (w *world) synchronize(rep *reply) (error, bool) {
 	p := resmgr.VerifPlugin(w.rm)
 	var pods []*nri.PodSandbox
 	var ctrs []*nri.Container
+	if w.fixedSync != nil {
+		// C15: the request's arguments were fixed when it was issued
+		pods, ctrs = w.fixedSync.pods, w.fixedSync.ctrs
+		return w.call("Synchronize", func() error {
+			var err error
+			rep.updates, err = p.Synchronize(ctx, pods, ctrs)
+			return err
+		})
+	}
 	for _, id := range sortedKeys(w.rt.pods) {
 		pod := w.rt.pods[id]
 		if pod.state == "running" || pod.state == "stopped" {
